@@ -462,6 +462,7 @@ func (m *modelReader) readVal(term string, t types.Type, path string) rVal {
 					n, ok := sxInt(v)
 					if ok && lo != nil && n.Cmp(lo) >= 0 && n.Cmp(hi) < 0 {
 						out.elems[i] = &rInt{v: n}
+						m.pin(ts[i], &sx{atom: bignum(n)})
 					}
 				}
 			}
@@ -635,23 +636,30 @@ func (m *modelReader) readSlice(term string, elem types.Type, path string) rVal 
 	}
 	big64 := big.NewInt(64)
 	if ln.Cmp(big64) > 0 || new(big.Int).Add(off, cp).Cmp(big.NewInt(256)) > 0 {
-		if m.shape(and(app("<=", slen(term), "16"), app("<=", app("+", soff(term), scap(term)), "64"))) ||
-			m.shape(and(app("<=", slen(term), "256"), app("<=", app("+", soff(term), scap(term)), "1024"))) ||
-			m.shape(app("<=", app("+", soff(term), scap(term)), num(replayMaxLen))) {
+		wfS := and(app("<=", "0", soff(term)), app("<=", "0", slen(term)), app("<=", slen(term), scap(term)))
+		if m.shape(and(wfS, app("<=", slen(term), "16"), app("<=", app("+", soff(term), scap(term)), "64"))) ||
+			m.shape(and(wfS, app("<=", slen(term), "256"), app("<=", app("+", soff(term), scap(term)), "1024"))) ||
+			m.shape(and(wfS, app("<=", app("+", soff(term), scap(term)), num(replayMaxLen)))) {
 			reshaped = true
 		}
 	}
 	if reshaped {
 		vs = m.get(sarr(term), soff(term), slen(term), scap(term))
 		arr = vs[0]
-		off, _ = sxInt(vs[1])
-		ln, _ = sxInt(vs[2])
-		cp, _ = sxInt(vs[3])
+		off, ok1 = sxInt(vs[1])
+		ln, ok2 = sxInt(vs[2])
+		cp, ok3 = sxInt(vs[3])
+		if !ok1 || !ok2 || !ok3 {
+			panic(unsupportedErr{"model extraction: slice header of " + path})
+		}
+		if sxIsNilPtr(arr) || off.Sign() < 0 || ln.Sign() < 0 || cp.Cmp(ln) < 0 || !m.ptrRootOK(arr) {
+			return nil
+		}
 	}
 	m.pin(sarr(term), arr)
-	m.pin(soff(term), &sx{atom: off.String()})
-	m.pin(slen(term), &sx{atom: ln.String()})
-	m.pin(scap(term), &sx{atom: cp.String()})
+	m.pin(soff(term), &sx{atom: bignum(off)})
+	m.pin(slen(term), &sx{atom: bignum(ln)})
+	m.pin(scap(term), &sx{atom: bignum(cp)})
 	if arr.head() != "Base" {
 		panic(unsupportedErr{fmt.Sprintf("unsupported input kind: slice %s whose backing array is part of another object (%s)", path, arr)})
 	}
@@ -669,11 +677,11 @@ func (m *modelReader) readSlice(term string, elem types.Type, path string) rVal 
 	}
 	// the visible window is reconstructed element by element; spare capacity only when it is small
 	upto := o + n
-	if c-n <= 64 {
-		upto = o + c
-	}
 	if lt := types.Unalias(elem); isLeaf(lt) {
 		if eb, ok := lt.Underlying().(*types.Basic); ok && eb.Info()&types.IsInteger != 0 {
+			if c-n <= 64 {
+				upto = o + c // spare capacity of integer blocks (what an in-place append would expose); other spare cells stay zero
+			}
 			// bulk read of integer elements
 			if term0, ok := m.cellTerm(mkElem(arr.String(), "0"), elem); ok {
 				_ = term0
